@@ -471,6 +471,16 @@ func oracleFor(op *Sexp, res string) []string {
 		if lastDecValid && lastDecAlloc > lastDecBound {
 			bad("allocated %d bytes while decoding %d input bytes (bound for this target type: %d)", lastDecAlloc, len(arg(4))/2, lastDecBound)
 		}
+		if res == "err" && op.head() == "decdeep" {
+			// an error below d struct levels names every level once, outermost first, and unwraps level by level
+			n := strings.Count(lastDecErr, "failed reading ") + strings.Count(lastDecErr, "failed to skip ")
+			if lastDecErrChain < n || lastDecErrChain > n+3 {
+				bad("the error message names %d levels but the error unwraps in %d steps", n, lastDecErrChain)
+			}
+			if n > 0 && !strings.HasPrefix(lastDecErr, "failed reading ") {
+				bad("the error message does not start with the outermost level: %s", clip(lastDecErr, 120))
+			}
+		}
 	case "laws":
 		// size == len(append), with and without tag; framing
 		if len(fields) < 5 {
